@@ -32,6 +32,7 @@ type State struct {
 	locks    map[string]string // lock key -> held condition
 	rlocks   map[string]string // lock key -> "held in read mode" condition
 	rets     map[string]Val    // "callee#ordinal" -> what that call returned on this path
+	calledIter map[string]string // like called, but reset at every loop head: "called during this iteration"
 	called   map[string]string // callee short name -> "has been called on this path" condition
 	lockInfo map[string]*lockRec
 	lastSeen map[string]*State // lock key -> state at last unlock (for rely)
@@ -59,6 +60,10 @@ func (s *State) Clone() *State {
 	n.rets = map[string]Val{}
 	for k, v := range s.rets {
 		n.rets[k] = v
+	}
+	n.calledIter = map[string]string{}
+	for k, v := range s.calledIter {
+		n.calledIter[k] = v
 	}
 	n.called = map[string]string{}
 	for k, v := range s.called {
@@ -632,6 +637,29 @@ func (fx *FuncExec) Merge(ins []incoming, what string) *State {
 			if present {
 				n.rets[k] = v
 			}
+		}
+	}
+	// calledIter: same merge as called
+	{
+		ck := map[string]bool{}
+		for _, in := range ins {
+			for k := range in.st.calledIter {
+				ck[k] = true
+			}
+		}
+		n.calledIter = map[string]string{}
+		for k := range ck {
+			get := func(s *State) string {
+				if h, ok := s.calledIter[k]; ok {
+					return h
+				}
+				return "false"
+			}
+			t := get(ins[len(ins)-1].st)
+			for i := len(ins) - 2; i >= 0; i-- {
+				t = ite(ins[i].cond, get(ins[i].st), t)
+			}
+			n.calledIter[k] = fx.em.Define("calledIter", SBool, t)
 		}
 	}
 	// called: merges like a held condition
